@@ -116,6 +116,15 @@ def build_frame(ctx, op, symbolic):
         if end:
             f.flags.add('END_STREAM')
         return f
+    if t == 'DATAP':            # padded DATA
+        _t, sid, end = op
+        f = hf.DataFrame(sid)
+        f.data = sym_bytes('dlen', 0, 1000, default=5) if symbolic else b'hello'
+        f.flags.add('PADDED')
+        f.pad_length = _sv('pad', 0, 255, 7) if symbolic else 7
+        if end:
+            f.flags.add('END_STREAM')
+        return f
     if t == 'RST':
         f = hf.RstStreamFrame(op[1])
         f.error_code = _sv('code', 0, core.INT32, 8) if symbolic else 8
